@@ -166,6 +166,27 @@ def corpus(ctx):
     b[30:33, 30:33] = 1
     for pr, rf in ((a, b), (b, a)):
         one_case(ctx, pr, rf, E.mk_cfg("SEMANTIC", ["IOU", "DSC"], matcher=E.naive("IOU", (1, 10)), backend="scipy"), "corpus.many-components")
+    # exactly 255 / 256 / 257 components (the instance map's dtype is chosen from the component count)
+    ys, xs = np.nonzero(np.ones((17, 17)))
+    for n in (255, 256, 257):
+        a = np.zeros((34, 34), np.uint8)
+        a[2 * ys[:n], 2 * xs[:n]] = 1
+        b = a.copy()
+        b[2 * ys[n - 1], 2 * xs[n - 1] + 1] = 1        # the last component is one voxel larger on the other side (IoU 1/2)
+        for backend in (None, "cc3d"):
+            ctx.count("component_count_at_dtype_boundary")
+            one_case(ctx, a, b, E.mk_cfg("SEMANTIC", ["IOU", "DSC"], matcher=E.naive("IOU", (1, 2)), backend=backend), f"corpus.components-{n}")
+        one_case(ctx, b, a[:, ::-1].copy(), E.mk_cfg("SEMANTIC", ["IOU"], matcher=E.naive("IOU", (1, 2))), f"corpus.components-{n}.mirrored")
+    # a decision threshold of exactly zero accepts every matched pair (IoU / Dice) resp. only perfect ones (ASSD)
+    ref = np.zeros((1, 30), np.uint8)
+    pred = np.zeros((1, 30), np.uint8)
+    ref[0, 0:9], ref[0, 12:20] = 1, 2
+    pred[0, 0:9], pred[0, 14:22] = 1, 2
+    for it in ("MATCHED", "UNMATCHED", "SEMANTIC"):
+        for dm in ("IOU", "DSC", "ASSD"):
+            ctx.count("decision_threshold_zero")
+            one_case(ctx, pred, ref, E.mk_cfg(it, ["IOU", "DSC", "ASSD"], matcher=E.naive("IOU", (1, 4)) if it != "MATCHED" else None, decision=[dm, {"q": [0, 1]}]),
+                     "corpus.decision-zero")
     # decision threshold stricter than the matching threshold
     ref = np.zeros((1, 30), np.uint8)
     pred = np.zeros((1, 30), np.uint8)
